@@ -5,7 +5,10 @@
 // over the stored databag states reachable with request sequences of Get/Set/Unset from an empty and
 // from a populated bag; every request is executed on the real View + JSONDataBag twice (directly on a
 // recording copy of the bag, and as the system does: through a Transaction that is committed) and
-// compared with a reference evaluator written over plain nested maps.
+// compared with a reference evaluator written over plain nested maps. A second family (verif_c30_nest_test.go)
+// puts 2-3 rules under one request prefix with nested / sibling / unrelated storage paths, so that one Set
+// writes several storage paths that contain each other; there the statement's read-after-write clause is also
+// checked per covered leaf request, without the reference.
 // Part 2 (transactions): two real Transactions over one stored bag, every interleaving of their
 // view operations and commits.
 package registrystate
@@ -16,6 +19,7 @@ import (
 	"fmt"
 	"os"
 	"regexp"
+	"runtime/debug"
 	"sort"
 	"strings"
 	"sync/atomic"
@@ -112,7 +116,7 @@ func (rejectSchema) Validate(data []byte) error {
 		return err
 	}
 	if refSchemaRejects(d) {
-		return errors.New("s.two must not be 3")
+		return errors.New("s.two must not be 3, t.u must not be 3")
 	}
 	return nil
 }
@@ -772,7 +776,10 @@ type viewCase struct {
 	Seq   []op     `json:"seq"`
 }
 
-type viol struct{ key, msg string }
+type viol struct {
+	key, msg string
+	class    bool // key names a class of inputs (known-findings), not one input
+}
 
 // stepResult: what one operation did on the real code in the state `before`
 type stepResult struct {
@@ -781,12 +788,18 @@ type stepResult struct {
 	class string
 	// informational
 	rawPartial bool
+	spurious   int // Sets repeated because of spuriousUnusedBranchError
+	leafChecks int // reads of covered leaf requests compared with the written value
+	multi      bool
+	nested     bool
+	disagree   bool
+	phOrder    bool // input class of the known finding placeholder-instance-written-after-nested-path
 }
 
 func runStep(vs viewSpec, view *registry.View, before string, o op) stepResult {
 	var res stepResult
 	refBag := decode(before)
-	add := func(k, m string) { res.viols = append(res.viols, viol{k, m}) }
+	add := func(k, m string) { res.viols = append(res.viols, viol{key: k, msg: m}) }
 
 	if o.Kind == "get" {
 		exp := refGet(vs, refBag, o.Req)
@@ -844,12 +857,45 @@ func runStep(vs viewSpec, view *registry.View, before string, o op) stepResult {
 	if exp.Class == "ok" {
 		expAfter = canon(refBag)
 	}
+	var leaves []leafExp
+	if o.Kind == "set" {
+		res.multi, res.nested, res.disagree, res.phOrder = nestShape(vs, o)
+		leaves = coveredLeaves(vs, o)
+		if res.phOrder && os.Getenv("VERIF_C30_NOCLASS") == "" { // (the variable is a development aid: report per input)
+			// known class: every violation of such a Set is reported under one key
+			defer func() {
+				for i := range res.viols {
+					res.viols[i].msg = "[" + res.viols[i].key + "] " + res.viols[i].msg
+					res.viols[i].key, res.viols[i].class = phOrderKey, true
+				}
+			}()
+		}
+	}
+	// the statement's read-after-write clause for every leaf request the Set covers
+	chkLeaves := func(what string, bag registry.DataBag) {
+		for _, l := range leaves {
+			res.leafChecks++
+			v, e := view.Get(bag, l.req)
+			if e != nil || canon(norm(v)) != canon(l.val) {
+				add("leaf-read-after-write:"+o.String(), fmt.Sprintf("%s: Get(%q) after successful %s on %s = %s, err=%v; the value written through the read-write rule for %q is %s", what, l.req, o, before, canon(v), e, l.req, canon(l.val)))
+			}
+		}
+	}
 
 	// (a) directly on a recording copy of the bag
 	rb := &recBag{JSONDataBag: bagFrom(before)}
 	var err error
 	if o.Kind == "set" {
 		err = view.Set(rb, o.Req, deepCopy(o.Val))
+		for try := 0; spuriousUnusedBranchError(err) && exp.Class != "bad-request" && try < spuriousRetries; try++ {
+			// see spuriousUnusedBranchError: depends on Go's map iteration order; nothing was written yet
+			if after := bagJSON(rb.JSONDataBag); after != before {
+				add("rejected-write-changed-bag:"+o.String(), fmt.Sprintf("%s on %s failed (%v) but the bag is now %s", o, before, err, after))
+			}
+			res.spurious++
+			rb = &recBag{JSONDataBag: bagFrom(before)}
+			err = view.Set(rb, o.Req, deepCopy(o.Val))
+		}
 	} else {
 		err = view.Unset(rb, o.Req)
 	}
@@ -867,9 +913,16 @@ func runStep(vs viewSpec, view *registry.View, before string, o op) stepResult {
 		}
 	}
 	got := classify(err)
+	if err == nil {
+		chkLeaves("bare databag", bagFrom(rawAfter))
+	}
 	if err != nil && rawAfter != before {
 		if got == "schema" {
 			res.rawPartial = true // View.Set on a bare bag validates after writing; classified separately (DESIGN C30)
+		} else if got == "other-error" && exp.Class == "storage-error" {
+			// likewise: a request that maps to several storage paths stops at the first path that runs through a
+			// scalar, the earlier paths are written/removed already; not one of the statement's rejections
+			res.rawPartial = true
 		} else {
 			add("rejected-write-changed-bag:"+o.String(), fmt.Sprintf("%s on %s failed (%v) but the bag is now %s", o, before, err, rawAfter))
 		}
@@ -885,6 +938,10 @@ func runStep(vs viewSpec, view *registry.View, before string, o op) stepResult {
 	var err2 error
 	if o.Kind == "set" {
 		err2 = view.Set(tx, o.Req, deepCopy(o.Val))
+		for try := 0; spuriousUnusedBranchError(err2) && exp.Class != "bad-request" && try < spuriousRetries; try++ {
+			res.spurious++
+			err2 = view.Set(tx, o.Req, deepCopy(o.Val))
+		}
 	} else {
 		err2 = view.Unset(tx, o.Req)
 	}
@@ -892,9 +949,13 @@ func runStep(vs viewSpec, view *registry.View, before string, o op) stepResult {
 	var readErr error
 	if err2 == nil {
 		readBack, readErr = view.Get(tx, o.Req) // uncommitted read-your-write
+		chkLeaves("uncommitted transaction", tx)
 		err2 = tx.Commit()
 	}
 	txAfter := bagJSON(stored)
+	if err2 == nil {
+		chkLeaves("committed transaction", bagFrom(txAfter))
+	}
 	res.after = txAfter
 	gotTx := classify(err2)
 	res.class = o.Kind + ":" + gotTx
@@ -941,7 +1002,21 @@ func runStep(vs viewSpec, view *registry.View, before string, o op) stepResult {
 		chk("uncommitted Get", readBack, readErr)
 		v2, e2 := view.Get(bagFrom(txAfter), o.Req)
 		chk("Get", v2, e2)
-		if m, isMap := o.Val.(M); o.Kind == "set" && allReadWrite(vs, o.Req) && !(isMap && len(m) == 0) {
+		// ... and the same for the request of every rule instance the Set covers
+		if ws, ok := covered(vs, o); ok && o.Kind == "set" {
+			done := map[string]bool{o.Req: true}
+			for _, w := range ws {
+				req := strings.Join(w.req, ".")
+				if done[req] {
+					continue
+				}
+				done[req] = true
+				want = refGet(vs, decode(expAfter), req)
+				v, e := view.Get(bagFrom(txAfter), req)
+				chk(fmt.Sprintf("Get(%q)", req), v, e)
+			}
+		}
+		if m, isMap := o.Val.(M); o.Kind == "set" && allReadWrite(vs, o.Req) && !(isMap && len(m) == 0) && aliasFree(vs, o, decode(before)) {
 			// the statement's own wording, independent of the reference evaluator
 			if v3, e3 := view.Get(bagFrom(txAfter), o.Req); e3 != nil || canon(norm(v3)) != canon(dropNils(norm(o.Val))) {
 				add("read-after-read-write-set-differs:"+o.String(), fmt.Sprintf("Get after successful %s through read-write rules on %s = %s, err=%v", o, before, canon(v3), e3))
@@ -950,6 +1025,20 @@ func runStep(vs viewSpec, view *registry.View, before string, o op) stepResult {
 	}
 	return res
 }
+
+// spuriousUnusedBranchError: View.Set checks that the value is used entirely by pruning the unmatched suffix
+// of every matched rule from a copy of the value, in Go map iteration order (checkForUnusedBranches). When one
+// suffix extends another (pre.a and pre.a.u under a Set of "pre") and the value has a further branch, pruning
+// "a" before "a.u" (or "a.u" first when it is all that "a" holds) leaves nothing for the second and the Set is
+// rejected as a bad request ("cannot use unmatched part ... shouldn't happen"); in another iteration order the
+// same Set succeeds. The rejection happens before anything is written. It is not one of the statement's
+// clauses (a spurious rejection changes nothing), so the harness repeats such a Set to get the deterministic
+// outcome and counts the repetitions (spurious_bad_request_repeated_informational).
+func spuriousUnusedBranchError(err error) bool {
+	return err != nil && errors.Is(err, &registry.BadRequestError{}) && strings.Contains(err.Error(), "cannot use unmatched part") && strings.Contains(err.Error(), "as key in <nil>")
+}
+
+const spuriousRetries = 300 // a single try fails with probability of up to about 3/4
 
 // expandAllowed: for a Set, an unbound placeholder of an allowed storage path is filled from the keys of the value
 func expandAllowed(allowed [][]string, o op) [][]string { return allowed }
@@ -982,7 +1071,9 @@ type txCase struct {
 }
 
 var txView = viewSpec{Rules: []ruleT{{"lit", "s.lit", "read-write"}, {"top.one", "s.one", "read-write"}, {"top.two", "s.two", "read-write"},
-	{"ph.{k}", "p.{k}.v", "read-write"}, {"n", "s.n", "read-write"}, {"n.in", "s.n.in", "read-write"}, {"wo", "s.wo", "write"}}}
+	{"ph.{k}", "p.{k}.v", "read-write"}, {"n", "s.n", "read-write"}, {"n.in", "s.n.in", "read-write"}, {"wo", "s.wo", "write"},
+	// two rules one Set on "sys" writes, the rule with the nested storage path has the request that sorts first
+	{"sys.hostname", "t.hostname", "read-write"}, {"sys.settings", "t", "read-write"}}}
 
 func txOps(tag int, full bool) []op {
 	if !full {
@@ -990,29 +1081,31 @@ func txOps(tag int, full bool) []op {
 		return []op{
 			{Kind: "set", Req: "lit", Val: 10 + tag}, {Kind: "set", Req: "top.one", Val: 20 + tag}, {Kind: "set", Req: "n", Val: M{"in": 50 + tag}},
 			{Kind: "set", Req: "n.in", Val: 60 + tag}, {Kind: "unset", Req: "n"}, {Kind: "set", Req: "top.two", Val: 3},
+			{Kind: "set", Req: "sys", Val: M{"settings": M{"x": 80 + tag}, "hostname": 90 + tag}},
 		}
 	}
 	return []op{
 		{Kind: "set", Req: "lit", Val: 10 + tag}, {Kind: "set", Req: "top.one", Val: 20 + tag}, {Kind: "set", Req: "top.two", Val: 30 + tag},
 		{Kind: "set", Req: "ph.x", Val: 40 + tag}, {Kind: "set", Req: "n", Val: M{"in": 50 + tag}}, {Kind: "set", Req: "n.in", Val: 60 + tag},
 		{Kind: "set", Req: "wo", Val: 70 + tag}, {Kind: "unset", Req: "lit"}, {Kind: "unset", Req: "n"}, {Kind: "set", Req: "top.two", Val: 3},
+		{Kind: "set", Req: "sys", Val: M{"settings": M{"x": 80 + tag}, "hostname": 90 + tag}}, {Kind: "set", Req: "sys.hostname", Val: 95 + tag},
 	}
 }
 
 func runTxCase(view *registry.View, c txCase) []viol {
 	var vs []viol
-	add := func(k, m string) { vs = append(vs, viol{k, m}) }
+	add := func(k, m string) { vs = append(vs, viol{key: k, msg: m}) }
 	stored := bagFrom(c.Start)
 	read := func() (registry.JSONDataBag, error) { return stored, nil }
 	write := func(b registry.JSONDataBag) error { stored = b; return nil }
 	var txs [2]*registry.Transaction
-	var snap [2]M      // reference: committed data as of the creation of the transaction
+	var snap [2]M       // reference: committed data as of the creation of the transaction
 	var pending [2][]op // reference: own writes not yet committed
 	refStored := decode(c.Start)
 	for i := range txs {
 		t, err := registry.NewTransaction(view.Registry(), read, write)
 		if err != nil {
-			return []viol{{"tx-new", err.Error()}}
+			return []viol{{key: "tx-new", msg: err.Error()}}
 		}
 		txs[i] = t
 		snap[i] = decode(c.Start)
@@ -1076,7 +1169,7 @@ func runTxCase(view *registry.View, c txCase) []viol {
 			for _, o := range pending[i] {
 				refWrite(txView, view1, o)
 			}
-			for _, req := range []string{"", "n.in"} { // "" reads everything the view can read
+			for _, req := range []string{"", "n.in", "sys.hostname"} { // "" reads everything the view can read
 				want := refGet(txView, view1, req)
 				got, err := view.Get(tx, req)
 				switch want.Class {
@@ -1096,10 +1189,23 @@ func runTxCase(view *registry.View, c txCase) []viol {
 }
 
 // partTimeUp: the view part may use this fraction of the soft budget, the rest is for the transactions
+// soft budgets (never an oracle): generous, the shared machine is at times 15x oversubscribed
+const quickBudget, thoroughBudget = 15 * time.Minute, 90 * time.Minute
+
+// onlyPart: development aid, VERIF_C30_ONLY=state|main|nest|tx runs one part (the evidence then says exhaustive:false)
+func skipPart(r *eng.Run, part string) bool {
+	only := os.Getenv("VERIF_C30_ONLY")
+	if only == "" || only == part {
+		return false
+	}
+	r.Cap("parts", "VERIF_C30_ONLY="+only)
+	return true
+}
+
 func partTimeUp(r *eng.Run, frac float64) bool {
-	budget := 100.0
+	budget := quickBudget.Seconds()
 	if r.Thorough() {
-		budget = 900
+		budget = thoroughBudget.Seconds()
 	}
 	if b := os.Getenv("VERIF_BUDGET_S"); b != "" {
 		fmt.Sscanf(b, "%f", &budget)
@@ -1131,12 +1237,129 @@ func interleavings(n0, n1 int) [][]int {
 	return res
 }
 
+type viewCounters struct {
+	evals, nontriv, states, transitions, rawPartial, rejected int64
+	multi, nested, disagree, leafChecks, spurious, phOrder    int64
+	maxOps                                                    int64
+}
+
+// exploreViews: for every view, breadth-first over the stored-bag states reachable from the start bags,
+// every operation of the view's alphabet in every state up to the depth.
+func exploreViews(r *eng.Run, views []viewSpec, opsFor func(viewSpec) []op, starts []string, depth int) *viewCounters {
+	c := &viewCounters{}
+	eng.ParallelFor(len(views), func(vi int) {
+		vs := views[vi]
+		ops := opsFor(vs)
+		view, err := vs.build(rejectSchema{})
+		if err != nil {
+			eng.HarnessError("view %s does not build: %v", vs.short(), err)
+		}
+		type st struct {
+			bag  string
+			path []op
+			from string
+		}
+		seen := map[string]bool{}
+		var frontier []st
+		for _, s0 := range starts {
+			s0 = canon(norm(json.RawMessage(s0)))
+			seen[s0] = true
+			frontier = append(frontier, st{bag: s0, from: s0})
+		}
+		var ev, nt, tr, rp, rj, mu, ne, di, lc, sp, po int64
+		for d := 0; d < depth && len(frontier) > 0; d++ {
+			var next []st
+			for _, s := range frontier {
+				if partTimeUp(r, 0.7) {
+					r.Cap("time", fmt.Sprintf("view exploration stopped at depth %d", d+1))
+					frontier, next = nil, nil
+					break
+				}
+				for _, o := range ops {
+					res := runStep(vs, view, s.bag, o)
+					ev++
+					tr++
+					r.Distinct("outcome", res.class)
+					if res.rawPartial {
+						rp++
+					}
+					if o.Kind != "get" && !strings.HasSuffix(res.class, ":ok") {
+						rj++
+					}
+					lc += int64(res.leafChecks)
+					sp += int64(res.spurious)
+					if strings.HasSuffix(res.class, ":ok") {
+						if res.multi {
+							mu++
+						}
+						if res.nested {
+							ne++
+						}
+						if res.disagree {
+							di++
+						}
+						if res.phOrder {
+							po++
+						}
+					}
+					// non-trivial: a write that matched rules of mixed access, or any rejected write on a non-empty bag
+					if o.Kind != "get" && (len(refMatchRules(vs, o.Req, func(string) bool { return true })) != len(refMatchRules(vs, o.Req, writeable)) || (!strings.HasSuffix(res.class, ":ok") && s.bag != "{}")) {
+						nt++
+					}
+					if len(res.viols) > 0 {
+						seq := append(append([]op(nil), s.path...), o)
+						for _, v := range res.viols {
+							key := v.key + "@" + vs.short()
+							if v.class {
+								key = v.key
+							}
+							r.Violation(key, v.msg+" | view "+vs.short(), viewCase{Part: "view", View: vs, Start: s.from, Seq: seq})
+						}
+					}
+					if !seen[res.after] {
+						seen[res.after] = true
+						next = append(next, st{bag: res.after, path: append(append([]op(nil), s.path...), o), from: s.from})
+					}
+				}
+			}
+			frontier = next
+			if earlyStop(r) {
+				break
+			}
+		}
+		atomic.AddInt64(&c.evals, ev)
+		atomic.AddInt64(&c.nontriv, nt)
+		atomic.AddInt64(&c.transitions, tr)
+		atomic.AddInt64(&c.states, int64(len(seen)))
+		atomic.AddInt64(&c.rawPartial, rp)
+		atomic.AddInt64(&c.rejected, rj)
+		atomic.AddInt64(&c.multi, mu)
+		atomic.AddInt64(&c.nested, ne)
+		atomic.AddInt64(&c.disagree, di)
+		atomic.AddInt64(&c.leafChecks, lc)
+		atomic.AddInt64(&c.spurious, sp)
+		atomic.AddInt64(&c.phOrder, po)
+		for {
+			old := atomic.LoadInt64(&c.maxOps)
+			if int64(len(ops)) <= old || atomic.CompareAndSwapInt64(&c.maxOps, old, int64(len(ops))) {
+				break
+			}
+		}
+		if vi == len(views)/2 {
+			r.Sample(map[string]interface{}{"view": vs.short(), "states": len(seen), "ops": len(ops)})
+		}
+	})
+	return c
+}
+
 // ---------------------------------------------------------------------------------------------
 
 func TestVerifC30(t *testing.T) {
-	r := eng.Start("C30", "model_checking", 100*time.Second, 15*time.Minute)
+	debug.SetGCPercent(400) // many short-lived JSON values on 16 workers: the collector otherwise takes a third of the CPU
+	r := eng.Start("C30", "model_checking", quickBudget, thoroughBudget)
 	r.Assume("reference evaluator over nested maps (matching by exact/prefix request with placeholders, access filter, value layering, unused branches, storage = nested maps where writes create levels and replace scalars in the way)",
-		"the schema violation of the space is a Schema implementation that rejects s.two == 3",
+		"the schema violation of the space is a Schema implementation that rejects s.two == 3 and t.u == 3",
+		"a Set that View.Set rejects at random (checkForUnusedBranches prunes request suffixes in map iteration order) is repeated until it gives its deterministic outcome",
 		"the stored databag is a JSONDataBag behind read/write closures, as overlord/registrystate hands it to registry.NewTransaction")
 
 	if rc := r.ReplayCase(); rc != nil {
@@ -1183,86 +1406,46 @@ func TestVerifC30(t *testing.T) {
 	}
 
 	// part 3 first (small)
-	runStatePart(r)
+	if !skipPart(r, "state") {
+		runStatePart(r)
+	}
 
-	views := allViews()
-	ops := allOps()
 	depth := r.Pick(2, 3)
-	var evals, nontriv, states, transitions, rawPartial, rejected, rejectedChecked int64
-	eng.ParallelFor(len(views), func(vi int) {
-		vs := views[vi]
-		view, err := vs.build(rejectSchema{})
-		if err != nil {
-			eng.HarnessError("view %s does not build: %v", vs.short(), err)
-		}
-		type st struct {
-			bag  string
-			path []op
-			from string
-		}
-		seen := map[string]bool{}
-		var frontier []st
-		for _, s0 := range []string{"{}", populated} {
-			s0 = canon(norm(json.RawMessage(s0)))
-			seen[s0] = true
-			frontier = append(frontier, st{bag: s0, from: s0})
-		}
-		var ev, nt, tr, rp, rj int64
-		for d := 0; d < depth && len(frontier) > 0; d++ {
-			var next []st
-			for _, s := range frontier {
-				if partTimeUp(r, 0.6) {
-					r.Cap("time", fmt.Sprintf("view exploration stopped at depth %d", d+1))
-					frontier, next = nil, nil
-					break
-				}
-				for _, o := range ops {
-					res := runStep(vs, view, s.bag, o)
-					ev++
-					tr++
-					r.Distinct("outcome", res.class)
-					if res.rawPartial {
-						rp++
-					}
-					if o.Kind != "get" && !strings.HasSuffix(res.class, ":ok") {
-						rj++
-					}
-					// non-trivial: a write that matched rules of mixed access, or any rejected write on a non-empty bag
-					if o.Kind != "get" && (len(refMatchRules(vs, o.Req, func(string) bool { return true })) != len(refMatchRules(vs, o.Req, writeable)) || (!strings.HasSuffix(res.class, ":ok") && s.bag != "{}")) {
-						nt++
-					}
-					if len(res.viols) > 0 {
-						seq := append(append([]op(nil), s.path...), o)
-						for _, v := range res.viols {
-							r.Violation(v.key+"@"+vs.short(), v.msg+" | view "+vs.short(), viewCase{Part: "view", View: vs, Start: s.from, Seq: seq})
-						}
-					}
-					if !seen[res.after] {
-						seen[res.after] = true
-						next = append(next, st{bag: res.after, path: append(append([]op(nil), s.path...), o), from: s.from})
-					}
-				}
-			}
-			frontier = next
-			if earlyStop(r) {
-				break
-			}
-
-		}
-		atomic.AddInt64(&evals, ev)
-		atomic.AddInt64(&nontriv, nt)
-		atomic.AddInt64(&transitions, tr)
-		atomic.AddInt64(&states, int64(len(seen)))
-		atomic.AddInt64(&rawPartial, rp)
-		atomic.AddInt64(&rejected, rj)
-		if vi == len(views)/2 {
-			r.Sample(map[string]interface{}{"view": vs.short(), "states": len(seen), "ops": len(ops)})
-		}
-	})
-	_ = rejectedChecked
+	mainOps := allOps()
+	tView := time.Now()
+	mainC := &viewCounters{}
+	if !skipPart(r, "main") {
+		mainC = exploreViews(r, allViews(), func(viewSpec) []op { return mainOps }, []string{"{}", populated}, depth)
+	}
+	r.Info("wall_s_main_views", int(time.Since(tView).Seconds()))
+	tView = time.Now()
+	nViews := nestViews(r.Thorough())
+	nestC := &viewCounters{}
+	if !skipPart(r, "nest") {
+		nestC = exploreViews(r, nViews, nestOps, []string{"{}", nestPopulated}, depth)
+	}
+	r.Info("wall_s_nest_views", int(time.Since(tView).Seconds()))
+	evals := mainC.evals + nestC.evals
+	nontriv := mainC.nontriv + nestC.nontriv
+	states := mainC.states + nestC.states
+	transitions := mainC.transitions + nestC.transitions
 	r.Add("view_operation_evaluations", evals)
-	r.Add("rejected_writes_checked_for_unchanged_bag", rejected)
-	r.Add("raw_bag_partial_write_on_schema_error_informational", rawPartial)
+	r.Add("nest_family_operation_evaluations", nestC.evals)
+	r.Add("rejected_writes_checked_for_unchanged_bag", mainC.rejected+nestC.rejected)
+	r.Add("raw_bag_partial_write_on_schema_error_informational", mainC.rawPartial+nestC.rawPartial)
+	r.Add("sets_writing_several_rules", mainC.multi+nestC.multi)
+	r.Add("sets_writing_nested_storage_paths", mainC.nested+nestC.nested)
+	r.Add("sets_writing_nested_storage_paths_request_order_opposite", mainC.disagree+nestC.disagree)
+	r.Add("covered_leaf_reads_compared_with_written_value", mainC.leafChecks+nestC.leafChecks)
+	r.Add("sets_in_the_input_class_reported_under_one_key", mainC.phOrder+nestC.phOrder)
+	if mainC.spurious+nestC.spurious > 0 {
+		r.Info("spurious_bad_request_seen", true) // the count depends on map iteration order, so it is not a counter
+	}
+	views := append(allViews(), nViews...)
+	ops := mainOps
+	if !earlyStop(r) && !skipPart(r, "nest") && !partTimeUp(r, 0.7) && (nestC.nested < 2 || nestC.disagree < 2 || nestC.leafChecks < 2) {
+		eng.HarnessError("nest family is vacuous: %+v", nestC)
+	}
 
 	// part 2
 	view, err := txView.build(rejectSchema{})
@@ -1284,9 +1467,14 @@ func TestVerifC30(t *testing.T) {
 		}
 	}
 	var txEvals, txNontriv int64
+	tTx := time.Now()
 	starts := []string{"{}", canon(norm(json.RawMessage(populated)))}
-	eng.ParallelFor(len(lists[0]), func(i int) {
-		l0 := lists[0][i]
+	// one work item per pair of operation lists (the items differ a lot in size)
+	eng.ParallelFor(len(lists[0])*len(lists[1]), func(i int) {
+		l0 := lists[0][i/len(lists[1])]
+		if skipPart(r, "tx") {
+			return
+		}
 		var ev, nt int64
 		if earlyStop(r) {
 			return
@@ -1295,7 +1483,7 @@ func TestVerifC30(t *testing.T) {
 			r.Cap("time_transactions", "not all pairs of operation lists were interleaved")
 			return
 		}
-		for _, l1 := range lists[1] {
+		for _, l1 := range lists[1][i%len(lists[1]) : i%len(lists[1])+1] {
 			for _, il := range interleavings(len(l0)+1, len(l1)+1) {
 				for _, start := range starts {
 					c := txCase{Part: "tx", Start: start}
@@ -1323,13 +1511,14 @@ func TestVerifC30(t *testing.T) {
 		atomic.AddInt64(&txEvals, ev)
 		atomic.AddInt64(&txNontriv, nt)
 	})
+	r.Info("wall_s_transactions", int(time.Since(tTx).Seconds()))
 	r.Add("transaction_interleavings", txEvals)
 	r.Add("evaluations", evals+txEvals)
 	r.Add("distinct_nontrivial", nontriv+txNontriv)
 	r.Add("states", states)
 	r.Add("transitions", transitions+txEvals)
 	r.Add("traces_validated_against_impl", transitions+txEvals)
-	r.Info("bounds", map[string]interface{}{"views": len(views), "operations": len(ops), "depth": depth, "initial_bags": 2, "tx_op_lists_per_transaction": len(lists[0]), "tx_max_ops": maxOps})
+	r.Info("bounds", map[string]interface{}{"views": len(views), "nest_views": len(nViews), "operations": len(ops), "nest_operations_max": nestC.maxOps, "depth": depth, "initial_bags": 2, "tx_op_lists_per_transaction": len(lists[0]), "tx_max_ops": maxOps})
 	r.Sample(txCase{Part: "tx", Start: "{}", Steps: []txStep{{Tx: 0, Op: &op{Kind: "set", Req: "lit", Val: 11}}, {Tx: 1, Op: &op{Kind: "set", Req: "top.one", Val: 22}}, {Tx: 1}, {Tx: 0}}})
-	r.Finish("views: every view of the family x breadth-first over stored-bag states (dedup on the canonical JSON of the bag) from an empty and a populated bag, every operation of the alphabet in every state up to the depth; each operation runs directly on a recording bag and through Transaction+Commit and is compared with the reference (result, error class, touched storage paths, changed data, unchanged bag on rejection, read after write). transactions: every pair of operation lists (<= tx_max_ops each) x every interleaving of operations and commits x 2 initial bags. distinct_nontrivial = writes matching rules of mixed access or rejected on a non-empty bag, plus interleavings where both transactions write")
+	r.Finish("views: every view of the main family and of the nest family (2-3 rules under one request prefix, every injective assignment to nested/sibling/unrelated storage paths, placeholder next to literal) x breadth-first over stored-bag states (dedup on the canonical JSON of the bag) from an empty and a populated bag, every operation of the alphabet in every state up to the depth; each operation runs directly on a recording bag and through Transaction+Commit and is compared with the reference (result, error class, touched storage paths, changed data, unchanged bag on rejection, read after write of the request and of every rule instance the Set covers; independently of the reference: Get of every covered leaf request returns exactly the part of the value written for it). transactions: every pair of operation lists (<= tx_max_ops each) x every interleaving of operations and commits x 2 initial bags. distinct_nontrivial = writes matching rules of mixed access or rejected on a non-empty bag, plus interleavings where both transactions write")
 }
